@@ -1658,8 +1658,14 @@ package go_clipper2
 //@   loop 0 invariant [all-on-so-far] forall(k, 0, _i, PointInPolygon(path1[k], path2) == IsOn) ==> pip == IsOn
 //@   ensures [all-on-boundary-uses-own-midpoint] forall(k, 0, len(path1), PointInPolygon(path1[k], path2) == IsOn) ==> result == (PointInPolygon(Point64{(getBounds(path1).left + getBounds(path1).right) / 2, (getBounds(path1).top + getBounds(path1).bottom) / 2}, path2) != IsOutside)
 
+// anyPath(), anyVtx(): an arbitrary but fixed path index and vertex index (uninterpreted constants: what is proved
+// for them holds for every vertex of every path)
+//@ spec anyPath() int
+//@ spec anyVtx() int
+//@ spec lowerLeft(p Point64, b Point64) bool = p.Y > b.Y || (p.Y == b.Y && p.X < b.X)
+
 //@ func Group.GetLowestPathInfo
-//@   props C05 C03 C13
+//@   props C05 C03 C13 C12
 //@   nosafety
 //@   assumes forall(k, 0, len(g.inPaths), domPath(g.inPaths[k], 29) && (len(g.inPaths[k]) <= 4 || noWrap(g.inPaths[k])))
 //@   loop 0 invariant [orientation-of-lowest] -1 <= idx && idx < _i+1 && idx < len(g.inPaths)+1 && (idx >= 0 ==> (idx < _i && isNegArea == (Area64(g.inPaths[idx]) < 0)))
@@ -1670,6 +1676,12 @@ package go_clipper2
 //@   ensures [orientation-of-lowest] result0 >= 0 ==> (result0 < len(g.inPaths) && result1 == (Area64(g.inPaths[result0]) < 0))
 //@   loop 0 invariant [no-lowest-path-yet-means-only-empty-or-zero-area-paths-so-far] idx == -1 ==> (botPt.X == math.MaxInt64 && botPt.Y == math.MinInt64 && forall(k, 0, _i, len(g.inPaths[k]) == 0 || Area64(g.inPaths[k]) == 0))
 //@   loop 0.0 invariant [the-first-vertex-of-the-first-path-with-area-is-always-taken] idx == -1 ==> (botPt.X == math.MaxInt64 && botPt.Y == math.MinInt64 && _i == 0 && a == 1.7976931348623157e308 && forall(k, 0, i, len(g.inPaths[k]) == 0 || Area64(g.inPaths[k]) == 0))
+//@   loop 0 invariant [no-vertex-of-an-earlier-path-with-area-is-lower-or-as-low-and-further-left] (0 <= anyPath() && anyPath() < _i && 0 <= anyVtx() && anyVtx() < len(g.inPaths[anyPath()]) && Area64(g.inPaths[anyPath()]) != 0) ==> !lowerLeft(g.inPaths[anyPath()][anyVtx()], botPt)
+//@   loop 0 invariant [the-bottom-point-is-a-vertex-of-the-chosen-path] idx >= 0 ==> memberOf(botPt, g.inPaths[idx])
+//@   loop 0.0 invariant [no-vertex-of-an-earlier-path-with-area-is-lower-or-as-low-and-further-left] (0 <= anyPath() && anyPath() < i && 0 <= anyVtx() && anyVtx() < len(g.inPaths[anyPath()]) && Area64(g.inPaths[anyPath()]) != 0) ==> !lowerLeft(g.inPaths[anyPath()][anyVtx()], botPt)
+//@   loop 0.0 invariant [no-vertex-of-this-path-so-far-either] (anyPath() == i && 0 <= anyVtx() && anyVtx() < _i) ==> !lowerLeft(g.inPaths[i][anyVtx()], botPt)
+//@   loop 0.0 invariant [the-bottom-point-is-a-vertex-of-the-chosen-path] idx >= 0 ==> memberOf(botPt, g.inPaths[idx])
+//@   assert after return#0 [whatever-the-order-of-the-paths-the-chosen-one-owns-the-lowest-then-leftmost-vertex] idx >= 0 ==> (memberOf(botPt, g.inPaths[idx]) && ((0 <= anyPath() && anyPath() < len(g.inPaths) && 0 <= anyVtx() && anyVtx() < len(g.inPaths[anyPath()]) && Area64(g.inPaths[anyPath()]) != 0) ==> !lowerLeft(g.inPaths[anyPath()][anyVtx()], botPt)))
 //@   ensures [wherever-the-paths-lie-a-group-with-a-path-of-non-zero-area-has-a-lowest-path] result0 == -1 ==> forall(k, 0, len(g.inPaths), len(g.inPaths[k]) == 0 || Area64(g.inPaths[k]) == 0)
 
 //@ func InflatePathsD
@@ -2746,6 +2758,16 @@ package go_clipper2
 //@   loop 0 invariant [closed-paths-are-divided-by-the-scale-one-by-one] len(*solutionClosed) == _i && forall(k, 0, _i, same((*solutionClosed)[k], ScalePath64ToPathD(solClosed64[k], c.invScale)))
 //@   loop 1 invariant [open-paths-are-divided-by-the-scale-one-by-one] len(*solutionOpen) == _i && forall(k, 0, _i, same((*solutionOpen)[k], ScalePath64ToPathD(solOpen64[k], c.invScale)))
 //@   loop 1 invariant [closed-solution-complete] len(*solutionClosed) == len(solClosed64)
+
+//@ func clipperD.ExecuteWithScaleFunc variant unscale
+//@   props C07
+//@   nosafety
+//@   opaque clipperBase.execute clipperBase.clearSolutionOnly
+//@   assert after call:clipperBase.execute#0 [the-integer-engine-runs-the-requested-operation] arg0 == clipType && arg1 == fillRule
+//@   assert after call:scaleFn#0 [closed-paths-go-through-the-callers-function-at-the-inverse-scale] same(arg0, path) && arg1 == c.invScale && c.invScale == old(c.invScale) && c.scale == old(c.scale)
+//@   assert after call:scaleFn#1 [open-paths-go-through-the-callers-function-at-the-inverse-scale] same(arg0, path) && arg1 == c.invScale && c.invScale == old(c.invScale) && c.scale == old(c.scale)
+//@   loop 0 invariant [one-result-per-closed-path] len(*solutionClosed) == _i
+//@   loop 1 invariant [one-result-per-open-path] len(*solutionOpen) == _i && len(*solutionClosed) == len(solClosed64)
 
 // isClockwise (C06, C13): between two opposite sides of the rectangle the turn is read off the exact sign of the
 // cross product through the rectangle's mid-point; adjacent sides turn clockwise when the second follows the first
